@@ -23,6 +23,9 @@ def route(case):
 # open, no patch); "head" = /repo HEAD.  Everything else is fixed in /repo (7e92d8e, e0693a6, d70a5ae, 9b87063, d95fed1,
 # 7faf7f9): a regression to any of those matches neither variant and is reported as a VIOLATION.
 VARIANTS = ["repaired", "head"]
+# the model driver receives the implementation's line: for a session whose uint64 cumulative has wrapped (outside the
+# property's domain) the implementation's counter VALUES are taken as they are from that operation on (ocaml: mask_line)
+MODEL_NEEDS_IMPL = True
 FLAGS = {"repaired": "", "head": "o"}
 SIG = {"o": "start-stop-interim-sent-from-unordered-goroutines"}
 RULE = ("One case = one history of the real AAA component with 1-4 sessions (two of them share an interim bucket; 6% of "
